@@ -100,6 +100,13 @@ class Evaluator:
                 return Opaque(name)
         if name in ("np", "sys", "logger", "numpy", "copy", "operator"):
             return Opaque(name)
+        if st.spec and isinstance(st.env.get("self"), dict):
+            # spec macros written over the engine's parameter names, used inside a method: self.<name> / self.problem.<name>
+            me = st.env["self"]
+            if name in me:
+                return me[name]
+            if isinstance(me.get("problem"), dict) and name in me["problem"]:
+                return me["problem"][name]
         raise Unsupported(f"unknown name {name!r} (line {self.line})")
 
     # ------------------------------------------------------------------ arrays
